@@ -2,7 +2,7 @@
    (model + K9 context vs. observations of the real implementation). *)
 From Coq Require Import List String Ascii ZArith Bool.
 From Verif Require Core TyModel.
-From Verif Require Import Regex PyK PyK_schema SchemaGen K9Proofs SchemaRoundtrip SchemaDefault.
+From Verif Require Import Regex PyK PyK_schema SchemaGen K9Proofs SchemaRoundtrip SchemaDefault SchemaChain.
 From VerifGen Require Import K9.
 Import ListNotations.
 Open Scope string_scope.
@@ -41,9 +41,8 @@ Definition mcase : Type :=
   (list (string * rcls) * (list (string * Core.pv) * dvals) * kv * (kv * kv * kv) * (bool * bool) * bool * list ty * list string
    * list (string * string) * bool)%type.
 
-Definition corr_ok (c: mcase) : bool :=
+Definition corr_run (E: ctab) (c: mcase) : bool :=
   let '(ER, (etab, vals), pctx, (ar, D, p), (wd, wu), builder, roots, exp_docs, exp_defs, exp_rec) := c in
-  let E := digest_tab (prerender etab vals ER) in
   match ctx_for builder wd pctx ar D p with
   | Ok ctx =>
       match cfg_of_ctx ctx with
@@ -63,6 +62,20 @@ Definition corr_ok (c: mcase) : bool :=
       | None => false end
   | Raise _ => false
   end.
+
+(* overridden serialization: the class table is digested with the CHAIN of replacements (SchemaChain, what the implementation
+   runs); on the one-step fragment (tab_flat: no replacement type mentions an overridden key) the digest of SchemaGen, which the
+   theorems C20_override_* are about, must reproduce the same observations *)
+Definition corr_ok (c: mcase) : bool :=
+  let '(ER, (etab, vals), pctx, (ar, D, p), (wd, wu), builder, roots, exp_docs, exp_defs, exp_rec) := c in
+  let ER' := prerender etab vals ER in
+  match digest_tab_chain 12 ER' with
+  | Some E => corr_run E c && (if tab_flat ER' then corr_run (digest_tab ER') c else true)
+  | None => false
+  end.
+Definition corr_chained (c: mcase) : bool :=
+  let '(ER, (etab, vals), pctx, (ar, D, p), (wd, wu), builder, roots, exp_docs, exp_defs, exp_rec) := c in
+  negb (tab_flat (prerender etab vals ER)).
 
 (* K9 sampling: observable behaviour of build_json_schema / JSONSchemaBuilder on a one-field
    dataclass named A: (a $ref was emitted, its text, "$defs" attached) *)
@@ -116,7 +129,7 @@ Definition rt_out (c: js * string) : bool := match norm (fst c) with NOut => fal
 (* debugging aid: the model's documents for a case *)
 Definition corr_dump (c: mcase) : list string :=
   let '(ER, (etab, vals), pctx, (ar, D, p), (wd, wu), builder, roots, exp_docs, exp_defs, exp_rec) := c in
-  let E := digest_tab (prerender etab vals ER) in
+  let E := match digest_tab_chain 12 (prerender etab vals ER) with Some E => E | None => [] end in
   match ctx_for builder wd pctx ar D p with
   | Ok ctx =>
       match cfg_of_ctx ctx with
